@@ -179,6 +179,8 @@ def rule_p3(ctx, F):
     if su:
         sw = [pt for pt, n in find(su, "finished_state_swap(states, index, _)")]
         ctx.gate("P3", su, sw, [("swap with the parent only when the element precedes it", "finished_state_precedes(_, _, pool)", True)], accept_desc="swapping with the parent")
+        bind(su, "parent", "(index - 1) / 2")
+        bind(su, "parent", "_ / 2")
         par = su.ids_named("parent")
         d = su.single_def(par[0]) if par else None
         if d is not None and M(su).match("(index - 1) / 2", d):
